@@ -14,6 +14,9 @@
    `cons` closure.  mc/MC_Render*.tla run it one TLC state per item; RenderDoc folds it. *)
 EXTENDS Tree
 
+\* a function over 1..n as a concrete tuple: every element is evaluated exactly once (TLC evaluates
+\* [i \in S |-> e] lazily and re-evaluates e at every application)
+Strict(f) == f \o <<>>
 (* ---------------- sub-renderer primitives ---------------- *)
 TL(items) == [b |-> FALSE, c |-> items, t |-> <<>>]
 BL(segs, tag) == [b |-> TRUE, c |-> segs, t |-> tag]
@@ -97,27 +100,27 @@ AppendColumns(parent, subs, cf) ==
   LET p1 == Flush(parent)
       n == Len(subs)
       tag == p1.ann
-      fl == [k \in 1..n |-> Flush(subs[k])]
+      fl == Strict([k \in 1..n |-> Flush(subs[k])])
       anyerr == \E k \in 1..n : fl[k].err
-      W == [k \in 1..n |-> subs[k].width]
+      W == Strict([k \in 1..n |-> subs[k].width])
       tot == SumSeq(W) + n - 1
-      Pos == [k \in 1..n |-> SumSeq(SubSeq(W, 1, k - 1)) + (k - 1)]      \* 0-based start of column k
-      ls0 == [k \in 1..n |-> [i \in 1..Len(fl[k].lines) |->
+      Pos == Strict([k \in 1..n |-> SumSeq(SubSeq(W, 1, k - 1)) + (k - 1)])      \* 0-based start of column k
+      ls0 == Strict([k \in 1..n |-> Strict([i \in 1..Len(fl[k].lines) |->
                  IF fl[k].lines[i].b THEN [fl[k].lines[i] EXCEPT !.c = StretchTo(@, W[k])]
-                 ELSE TL(PadTo(fl[k].lines[i].c, W[k], tag))]]
+                 ELSE TL(PadTo(fl[k].lines[i].c, W[k], tag))])])
       prevIsBorder == p1.lines # <<>> /\ Last(p1.lines).b
       prev0 == IF prevIsBorder THEN Last(p1.lines).c ELSE <<>>
       prev1 == IF prevIsBorder THEN FoldLeft(LAMBDA s, k : JoinBelow(s, Pos[k] + W[k]), prev0, [k \in 1..(n - 1) |-> k]) ELSE prev0
       next1 == IF prevIsBorder THEN FoldLeft(LAMBDA s, k : JoinAbove(s, Pos[k] + W[k]), Rep(GS, tot), [k \in 1..(n - 1) |-> k]) ELSE Rep(GS, tot)
-      startsB == [k \in 1..n |-> ls0[k] # <<>> /\ ls0[k][1].b]
+      startsB == Strict([k \in 1..n |-> ls0[k] # <<>> /\ ls0[k][1].b])
       \* the code expects a border line above when a cell starts with one ("No previous line" / unreachable!)
       bad == (\E k \in 1..n : startsB[k]) /\ ~prevIsBorder
       prev2 == FoldLeft(LAMBDA s, k : IF startsB[k] THEN MergeFrom(s, ls0[k][1].c, Pos[k], TRUE) ELSE s, prev1, [k \in 1..n |-> k])
-      ls1 == [k \in 1..n |-> IF startsB[k] THEN Tail(ls0[k]) ELSE ls0[k]]
-      endsB == [k \in 1..n |-> ls1[k] # <<>> /\ Last(ls1[k]).b]
+      ls1 == Strict([k \in 1..n |-> IF startsB[k] THEN Tail(ls0[k]) ELSE ls0[k]])
+      endsB == Strict([k \in 1..n |-> ls1[k] # <<>> /\ Last(ls1[k]).b])
       next2 == FoldLeft(LAMBDA s, k : IF endsB[k] THEN MergeFrom(s, Last(ls1[k]).c, Pos[k], FALSE) ELSE s, next1, [k \in 1..n |-> k])
-      padc == [k \in 1..n |-> IF endsB[k] THEN WithTag(VertAbove(Last(ls1[k]).c), tag) ELSE Spaces(W[k], tag)]
-      ls2 == [k \in 1..n |-> IF endsB[k] THEN Front(ls1[k]) ELSE ls1[k]]
+      padc == Strict([k \in 1..n |-> IF endsB[k] THEN WithTag(VertAbove(Last(ls1[k]).c), tag) ELSE Spaces(W[k], tag)])
+      ls2 == Strict([k \in 1..n |-> IF endsB[k] THEN Front(ls1[k]) ELSE ls1[k]])
       H == FoldLeft(LAMBDA a, k : Max2(a, Len(ls2[k])), 0, [k \in 1..n |-> k])
       sep == IF cf.borders THEN <<BAR, 1, tag>> ELSE <<32, 1, tag>>
       row(i) == FoldLeft(LAMBDA acc, k :
@@ -126,7 +129,7 @@ AppendColumns(parent, subs, cf) ==
                            ELSE padc[k])
                        \o (IF k < n THEN <<sep>> ELSE <<>>),
                    <<>>, [k \in 1..n |-> k])
-      body == [i \in 1..H |-> TL(row(i))]
+      body == Strict([i \in 1..H |-> TL(row(i))])
       cellFrags == Concat([k \in 1..n |-> fl[k].pend])     \* markers of cells without a line to carry them
       base0 == IF prevIsBorder THEN [p1 EXCEPT !.lines[Len(p1.lines)].c = prev2] ELSE p1
       base == [base0 EXCEPT !.pend = @ \o cellFrags]
